@@ -63,6 +63,36 @@ def scenario(args):
         jobs.append(net.job_call(name[s], "update", enter_update))
         jobs.append(net.job_write(name[d], s, 0, msg(n), budget_ms=8000))        # a frame for the node arrives while it is in its block
         jobs.append(net.job_write(name[s], d, 65, msg(n), budget_ms=8000))
+    elif kind == "mc-toggle":
+        # multicast switched off and on again on a running node (each time followed by the documented re-assignment)
+        s, other = p
+
+        def off(ns, nm):
+            o = ns.objs[nm]
+            o.allow_multicast = False
+            o.node_address = o.node_address
+            return 0
+
+        def on(ns, nm):
+            o = ns.objs[nm]
+            o.allow_multicast = True
+            o.multicast_level = o.multicast_level
+            return 0
+        jobs.append(net.job_call(name[s], "node_address=", off))
+        jobs.append(net.job_write(name[other], s, 0, msg(5), budget_ms=8000))
+        jobs.append(net.job_call(name[s], "multicast_level=", on))
+        jobs.append(net.job_write(name[s], other, 65, msg(30), budget_ms=8000))
+    elif kind == "power-cycle":
+        # the radio is powered down and up again through the node's own attribute, then the node only receives
+        s, other = p
+
+        def cycle(ns, nm):
+            o = ns.objs[nm]
+            o.power = False
+            o.power = True
+            return o.update()
+        jobs.append(net.job_call(name[s], "update", cycle))
+        jobs.append(net.job_write(name[other], s, 0, msg(5), budget_ms=8000))
     # every third scenario runs in a private address space (prefix / suffix changed after construction, node_address re-assigned)
     priv = dict(prefix=0xA7, suffix=[0x5A, 0x69, 0x96, 0xA5, 0xC3, 0x3C]) if seed % 3 == 0 else {}
     ns = net.NetSim(nodes, seed=seed, jitter=jitter, faults=rules, **priv)
@@ -108,6 +138,9 @@ def build(chk):
             add("routing-mid", (s, d, 65, n))
     for (s, d) in [(0o11, 0o1), (0, 0o2), (0o21, 0o111)]:
         add("context", (s, d, 5))
+    for (s, d) in [(0o11, 0o1), (0o1, 0), (0o21, 0o111), (0o2, 0o21), (0, 0o1), (0o111, 0o11)]:
+        add("mc-toggle", (s, d))
+        add("power-cycle", (s, d))
     return jobs
 
 
